@@ -812,4 +812,68 @@ theorem c02_nilslice_false : ¬ c02_nilslice_full := by
   have := h {} (fun _ _ => .ok .nil) .int 0
   revert this; decide
 
+/-! ### members the container's code cannot call (`seen`, `built`)
+
+  The laws above hold for every environment, hence also for `seen skip env`, what a container sees
+  of members it has no entry point on (a type offering only `Parse` as Slice / Array element — until
+  /repo ff6dceb also every `*core.ZodPipe` —, a type implementing exactly `core.ZodSchema` as Map / Set / Record / Struct member).
+  Read over the members' OWN verdicts `env`, the law then only holds for callable members. -/
+
+theorem seen_nil (env : Env) : seen [] env = env := by
+  funext m v; simp [seen]
+
+theorem acc_seen (skip : List Mid) (env : Env) (m : Mid) (v : V) :
+    acc (seen skip env) m v = (skip.contains m || acc env m v) := by
+  unfold acc seen
+  by_cases h : skip.contains m = true
+  · have h' : m ∈ skip := by simpa using h
+    rw [if_pos h]; simp [h']
+  · have h' : m ∉ skip := by simpa using h
+    rw [if_neg h]; simp [h']
+
+/-- **slice over what it sees**: a callable element schema decides every element; one the code
+    cannot call decides nothing. -/
+theorem c02_slice_seen (cfg : Cfg) (env : Env) (skip : List Mid) (m : Mods) (t : Ty) (e : Mid)
+    (cs : List SizeCk) (v : V) (hv : v.isNilLike = false) :
+    (run cfg (seen skip env) (.slice m t e cs) v).isOk = true ↔
+      ∃ xs, extractSlice t v = some xs ∧ sizeOK cs xs.length = true ∧
+        ∀ x ∈ xs, (skip.contains e = true ∨ acc env e x = true) := by
+  rw [c02_slice cfg (seen skip env) m t e cs v hv]
+  simp only [acc_seen, Bool.or_eq_true]
+
+/-- the composition law for a slice, read over the element schema's OWN verdicts. -/
+def c02_callable_full : Prop :=
+  ∀ (cfg : Cfg) (env : Env) (skip : List Mid) (t : Ty) (e : Mid) (v : V), v.isNilLike = false →
+    ((run cfg (seen skip env) (.slice {} t e []) v).isOk = true ↔
+      ∃ xs, extractSlice t v = some xs ∧ ∀ x ∈ xs, acc env e x = true)
+
+/-- … it holds when the element schema is callable … -/
+theorem c02_callable_partial (cfg : Cfg) (env : Env) (skip : List Mid) (t : Ty) (e : Mid) (v : V)
+    (hv : v.isNilLike = false) (hc : skip.contains e = false) :
+    (run cfg (seen skip env) (.slice {} t e []) v).isOk = true ↔
+      ∃ xs, extractSlice t v = some xs ∧ ∀ x ∈ xs, acc env e x = true := by
+  rw [c02_slice_seen cfg env skip {} t e [] v hv]
+  have hc' : e ∉ skip := by simpa using hc
+  simp [hc', sizeOK]
+
+/-- … and fails otherwise: `Slice[any](m).Parse([]any{x})` with `m` offering only `Parse` accepts an
+    `x` that `m` rejects (`m` is not a `core.ZodSchema`, `types/slice.go:457` never asks it). -/
+theorem c02_unasked_member_false : ¬ c02_callable_full := by
+  intro h
+  have := (h {} (fun _ _ => .err (mk .invalidValue []) []) [0] .any 0
+    (.slice .any (some [.atom .str 1])) rfl).1 (by decide)
+  obtain ⟨xs, hx, hall⟩ := this
+  simp only [extractSlice, ↓reduceIte, Option.some.injEq] at hx
+  subst hx
+  have := hall (.atom .str 1) (List.mem_singleton.2 rfl)
+  simp [acc] at this
+
+/-- `Array([], rest = a schema offering only Parse)`: the constructor drops a rest argument that is not a `core.ZodSchema`;
+    the array built has no rest and rejects (too_big) the one-element input its rest schema accepts. -/
+theorem c02_array_rest_dropped :
+    (run {} (seen [0] (fun _ v => .ok v)) (built [0] (.array {} [] (some 0) []))
+        (.slice .any (some [.atom .str 1]))).isOk = false
+      ∧ (run {} (fun _ v => .ok v) (.array {} [] (some 0) []) (.slice .any (some [.atom .str 1]))).isOk = true := by
+  decide
+
 end Gozod.C02
